@@ -30,4 +30,5 @@ def run(tier, seed):
                        "places the neighbour at generator + shift and passes (right_idx, shift) into the half-space unchanged; right_loc reproduces generator + shift; the face "
                        "takes its labels from the half-space. cuboid triples the initial cell along exactly the active axes when periodic (reals: all boxes; bits: window).",
     }
+    meta["assumptions"] = list(meta["assumptions"]) + kani.scan_assumptions()
     return results, meta
